@@ -1460,6 +1460,80 @@ impl TransportManager {
     }
 }
 
+#[cfg(litep2p_verif)]
+impl TransportManager {
+    /// Read-only, sorted dump of the manager state (verification seam).
+    pub fn verif_snapshot(&self) -> crate::verif::ManagerSnapshot {
+        use peer_state::SecondaryOrDialing;
+
+        let record = |r: &peer_state::ConnectionRecord| (r.connection_id, r.address.clone());
+        let peers = self.peers.read();
+        let mut out_peers = peers
+            .iter()
+            .map(|(peer, context)| {
+                let (state, records, mut addresses) = match &context.state {
+                    PeerState::Connected { record: r, secondary } => match secondary {
+                        None => ("connected", vec![record(r)], vec![]),
+                        Some(SecondaryOrDialing::Secondary(s)) =>
+                            ("connected+secondary", vec![record(r), record(s)], vec![]),
+                        Some(SecondaryOrDialing::Dialing(d)) =>
+                            ("connected+dialing", vec![record(r), record(d)], vec![]),
+                    },
+                    PeerState::Opening {
+                        addresses,
+                        connection_id,
+                        ..
+                    } => (
+                        "opening",
+                        vec![(*connection_id, Multiaddr::empty())],
+                        addresses.iter().cloned().collect::<Vec<_>>(),
+                    ),
+                    PeerState::Dialing { dial_record } =>
+                        ("dialing", vec![record(dial_record)], vec![]),
+                    PeerState::Disconnected { dial_record: None } => ("disconnected", vec![], vec![]),
+                    PeerState::Disconnected {
+                        dial_record: Some(d),
+                    } => ("disconnected+dialing", vec![record(d)], vec![]),
+                };
+                addresses.sort();
+                let mut book = context
+                    .addresses
+                    .addresses
+                    .values()
+                    .map(|r| (r.address().clone(), r.verif_score()))
+                    .collect::<Vec<_>>();
+                book.sort();
+                crate::verif::PeerSnapshot {
+                    peer: *peer,
+                    state,
+                    records,
+                    opening_addresses: addresses,
+                    address_book: book,
+                }
+            })
+            .collect::<Vec<_>>();
+        out_peers.sort_by_key(|p| p.peer);
+
+        let mut pending_connections =
+            self.pending_connections.iter().map(|(id, peer)| (*id, *peer)).collect::<Vec<_>>();
+        pending_connections.sort_by_key(|(id, _)| id.verif_raw());
+        let mut opening_errors = self.opening_errors.keys().copied().collect::<Vec<_>>();
+        opening_errors.sort_by_key(|id| id.verif_raw());
+        let (mut incoming, mut outgoing) = self.connection_limits.verif_counted();
+        incoming.sort_by_key(|id| id.verif_raw());
+        outgoing.sort_by_key(|id| id.verif_raw());
+
+        crate::verif::ManagerSnapshot {
+            peers: out_peers,
+            pending_connections,
+            opening_errors,
+            counted_incoming: incoming,
+            counted_outgoing: outgoing,
+            pending_accepts: self.pending_accept.len(),
+        }
+    }
+}
+
 #[cfg(test)]
 mod tests {
     use crate::transport::manager::{address::AddressStore, peer_state::SecondaryOrDialing};
